@@ -98,8 +98,44 @@ def ob_rejection_budget(run, oid):
     return o
 
 
+def ob_zero_stays_zero(run, oid):
+    """a validator without weight is never drawn: no sampler constructor lifts a weight off zero"""
+    prog = run.program("lib")
+    o = run.ob(oid, "sampling weights are never clamped from below: no max / clamp / NonZero / `+ c` between a stake (or derived weight) and the weighted index",
+               "'a zero-weight validator is never drawn': WeightedIndex gives an element of weight 0 probability 0; a floor of 1 (to dodge AllWeightsZero, say) gives it a "
+               "non-zero probability", floor=2)
+    n = 0
+    CLAMP = ("max", "clamp", "saturating_add", "checked_add", "wrapping_add", "nonzero", "new_unchecked")
+    for d, b in prog.bodies.items():
+        if b.generated or "::tests::" in d or not d.startswith(SS):
+            continue
+        # (a) stakes rewritten in place (TurbineSampler::new_with_fanout turns expected work into stakes)
+        for (bb, ow, name, rv, sp, dst) in b.field_writes():
+            if name == "stake" and ow.endswith("ValidatorInfo"):
+                n += 1
+                t = b.rvalue_term(rv)
+                bad = [x[1].rsplit("::", 1)[-1] for x in mir.walk(t) if isinstance(x, tuple) and x and x[0] == "call" and x[1].rsplit("::", 1)[-1].lower() in CLAMP]
+                addc = [x for x in mir.walk(t) if isinstance(x, tuple) and x and x[0] == "bin" and x[1].startswith("Add") and (K.const_eval(x[2]) or K.const_eval(x[3]))]
+                o.check(not bad and not addc, "%s|stake-write|not-lifted" % K.fshort(d), "the weight written is the computed value as is (zero stays zero)", sp, {"value": mir.show(t)[:100]})
+        # (b) what is handed to the weighted index
+        for c in b.calls():
+            if c.name.endswith("WeightedIndex<X>::new") or "WeightedIndex" in c.name and c.name.endswith("::new"):
+                n += 1
+                pv = b.provenance(b.operand_term(c.args[0]), depth=8)
+                names = set(x.rsplit("::", 1)[-1].lower() for x in pv["calls"])
+                cl_bad = []
+                for fb in prog.family(d.split("::{closure")[0]):
+                    if fb.is_closure:
+                        cl_bad += [x.name.rsplit("::", 1)[-1] for x in fb.calls() if x.name.rsplit("::", 1)[-1].lower() in ("max", "clamp")]
+                o.check(not (names & set(CLAMP)) and not cl_bad, "%s|weights|not-lifted" % K.fshort(d), "the weights handed to WeightedIndex::new are the stakes as they are", c.span, {"calls": sorted(names)[:12]})
+    if n == 0:
+        o.missing("stake writes / WeightedIndex::new in sampling_strategy")
+    return o
+
+
 def check(run):
     ob_rejection_budget(run, "O17.12")
+    ob_zero_stays_zero(run, "O17.13")
     from . import detectors as _DN
     _DN.ob_new_fields(run, "O17.10", ['disseminator::rotor::sampling_strategy', 'disseminator::turbine::weighted_shuffle'], 'a sampler may depend on the validator set and the supplied RNG only: a new field read while sampling is further state')
     from . import detectors as _DC
